@@ -70,8 +70,16 @@ def run_split(c):
     if not refinable0:
         return dict(nt=False, cls=["no-refinable-region"])
     before = [(X.of_frame(r), r.region) for r in refinable0]
-    block0, fix0 = snapshot(die.blockages), snapshot(die.fixed_regions)
     r, n = float(c["r"]), int(c["n"])
+    released = False
+    if c.get("release") and die.netlist is not None:
+        # the netlist goes on living after the die was built: its fixed modules are released (as a later stage may do); the die's
+        # fixed regions are what they were when it was built, before and after the refinement
+        for m in die.netlist.modules:
+            if m.is_fixed and not m.is_terminal:
+                m.is_fixed = False
+                released = True
+    block0, fix0 = snapshot(die.blockages), snapshot(die.fixed_regions)  # (taken after the release: the rectangle objects are shared)
     rej = c.get("rejected_first")
     if rej:
         # a request outside the admissible range (r <= sqrt 2, or n < 1) comes first and is refused: the die is as before
@@ -117,6 +125,8 @@ def run_split(c):
         cls.append("split")
     if rej:
         cls.append("after-a-refused-request")
+    if released:
+        cls.append("fixed-modules-released-after-the-die-was-built")
     if split and r < 2 and n > len(refinable0):
         cls.append("count-driven-with-r<2")
     if any(max((e[2] - e[0]) / (e[3] - e[1]), (e[3] - e[1]) / (e[2] - e[0])) > 64 * Fr(r) for e, _ in before):
@@ -172,6 +182,7 @@ def split_s(draw):
     c["n"] = draw(st.sampled_from([1, 1, 2, 2, 3, 4, 5, 7, 8, 12, 16, 23, 37, 60]))
     if draw(_i(0, 3)) == 0:
         c["rejected_first"] = draw(st.sampled_from([[1.3, 6], [1.0, 2], [1.41, 4], [2, 0], [3, -1], [0.5, 3]]))
+    c["release"] = draw(_i(0, 2)) == 0
     return c
 
 
@@ -188,6 +199,7 @@ def grid_s(draw):
 def subchecks():
     return [
         Sub("split", run_split, strategy=split_s(), n_quick=12000, n_thorough=300000, fuzz_thorough=6000,
-            required=("r<2", "specialised", "split", "count-driven-with-r<2", "tiny-die", "after-a-refused-request", "region-needing-7+-halvings")),
+            required=("r<2", "specialised", "split", "count-driven-with-r<2", "tiny-die", "after-a-refused-request", "region-needing-7+-halvings",
+                      "fixed-modules-released-after-the-die-was-built")),
         Sub("grid", run_grid, strategy=grid_s(), n_quick=3000, n_thorough=60000, fuzz_thorough=1500, required=("rows!=cols", "square-grid", "grid-of-one-cell")),
     ]
